@@ -23,6 +23,12 @@ pub enum DMode {
     C19,
 }
 
+/// C18 also runs the configuration-swarm scenario (edge strings, sizes) and checks the
+/// transcripts of whatever was emitted up to a refusal.
+pub fn run_c18_edge(ctx: &mut Ctx) -> RunResult {
+    run_inner(ctx, DMode::C19, true)
+}
+
 #[derive(Clone, Debug, PartialEq)]
 pub enum ItemKind {
     Meta(StreamMetadata),
@@ -110,9 +116,13 @@ fn draw_edge_string(ctx: &mut Ctx, label: &'static str, base: &str, cfg: &mut DC
     match ctx.ch.weighted(label, &[6, 1, 1, 1, 1, 1, 1]) {
         0 => base.to_string(),
         5 => {
-            // multi-byte UTF-8, exactly 65,535 bytes (expressible)
+            // multi-byte UTF-8 close to the limit (expressible): 2-, 3- or 4-byte characters
+            // whose boundaries fall on arbitrary offsets, total length at or just below 65,535
             cfg.edge_values += 1;
-            format!("{}a", "\u{e9}".repeat(32767))
+            let bytes = *ctx.ch.pick("cfg.edgebytes", &[65535usize, 65534, 65520, 65505, 65504, 65503]);
+            let unit = 2 + ctx.ch.draw("cfg.edgeunit", 3) as usize;
+            let shift = ctx.ch.draw("cfg.edgeshift", 4) as usize;
+            crate::worlds::hostile::exact_bytes_string(bytes, unit, shift)
         }
         6 => {
             // multi-byte UTF-8, 65,536 bytes in 32,768 characters (not expressible)
@@ -1124,6 +1134,10 @@ pub fn end_oracle(ctx: &mut Ctx, w: &World) -> RunResult {
 }
 
 pub fn run(ctx: &mut Ctx, mode: DMode) -> RunResult {
+    run_inner(ctx, mode, false)
+}
+
+fn run_inner(ctx: &mut Ctx, mode: DMode, transcripts: bool) -> RunResult {
     ctx.world("D");
     ctx.step_cap = 60_000;
     let cfg = draw_cfg(ctx, mode);
@@ -1151,8 +1165,11 @@ pub fn run(ctx: &mut Ctx, mode: DMode) -> RunResult {
             } else {
                 ctx.probe("d.publish_scenario");
             }
-            if w.cli.c.ack.acks_seen + w.srv.c.ack.acks_seen > 0 {
-                ctx.probe("d.acks_flowed");
+            if transcripts {
+                for node in [&w.srv.c, &w.cli.c] {
+                    transcript::check(ctx, node)?;
+                }
+                ctx.probe("c18.edge_configuration_transcripts");
             }
         }
         DMode::C17 => {
